@@ -42,7 +42,7 @@ def keyword_docs():
     for kw, el in sorted(absdoc.SPEECH_GROUPS.items()):
         out.append(('debate', 'DEBATESECTION\n  ' + kw + ' 2\n    FROM the speaker\n    text\n',
                     doc('debate', E('debateBody', None, E('debateSection', {'name': 'debateSection'},
-                                                           E(el, None, E('num', None, '2'), E('from', None, 'the speaker'), E('p', None, 'text')))))))
+                                                           E(el, {'by': '?'}, E('num', None, '2'), E('from', None, 'the speaker'), E('p', None, 'text')))))))
     for kw, el in sorted(absdoc.ATTACH.items()):
         out.append(('act', 'x\n' + kw + ' Head\n  SUBHEADING sub\n  y\n',
                     doc('act', E('body', None, hc(E('p', None, 'x'))),
@@ -64,7 +64,7 @@ def compare(root, text, exp):
         x = impl.parser().parse_to_xml(text, root)
     except Exception as e:
         return ('bad', 'conversion raised %s' % impl.exc_kind(e))
-    a, b = absdoc.strip_for_compare(x[0]), absdoc.strip_for_compare(exp)
+    a, b = absdoc.strip_for_compare(x[0], exp), absdoc.strip_for_compare(exp)
     if a != b:
         i = next((i for i in range(min(len(a), len(b))) if a[i] != b[i]), min(len(a), len(b)))
         return ('bad', 'tree differs from the prescribed one: got ...%s | prescribed ...%s' % (a[max(0, i - 80):i + 60], b[max(0, i - 80):i + 60]))
